@@ -195,6 +195,15 @@ func (vm *Thread) InspectCallStack() {
 
 func (vm *Thread) throwIfErr(err value.Value) {
 	if err.IsUndefined() {
+		if vm.errStackTrace != nil {
+			// An error thrown in a nested run of the VM has been swallowed
+			// by native code (eg. the `:stop_iteration` of an exhausted
+			// generator driven by a `for` loop).
+			// Forget its stack trace, otherwise a later error
+			// with an equal value would be reported with it.
+			vm.errStackTrace = nil
+			vm.errValue = value.Undefined
+		}
 		return
 	}
 
